@@ -89,6 +89,12 @@ CHECKS = {
         text="For grouped queries whose keys are not public: under every assignment of the random ranks each privacy unit contributes to at most max_privacy_unit_groups released keys, each unit is counted once per key, a key held by a single unit is released only if its noise draw exceeds tau - 1 with tau the literal reproduced by gaussian_tau on (epsilon, delta) * share, the event carries exactly that share and the remaining share goes to the aggregates, and keys of the outer query are closed under the release. Databases of <= 3 rows per table, 12 key layouts sampled in quick and all in thorough.",
         note="Trusted: lib/symrel.py semantics, the structural recognition of cap/distinct/noise/threshold nodes (unrecognised -> inconclusive), the textbook claim that tau-thresholding with this tau is (eps, delta)-DP.",
         design="3 C04"),
+    "C08": dict(
+        level="translation_validation", engine="S (SymRel) + independent SQL front end (lib/sqlfront.py) + SQLite replay",
+        technique="SMT: the original SQL text and the SQL the real compiler renders from its relation are both executed symbolically by an independent front end (own lark grammar, name resolution, grouping, USING / NATURAL, set operations, ordering) over one symbolic database; the solver searches for a database on which the two results differ as bags, or as sequences under ORDER BY; SQLite replay of both texts",
+        text="For every SQL text of a fixed list (aggregate/scalar mixes, GROUP BY on expressions / aliases / positions, HAVING, DISTINCT, CTEs, derived tables, join chains with ON / USING / NATURAL, set operations, ORDER BY / LIMIT / OFFSET, qualified and aliased names) and a seeded generator, and every database of <= 2 rows per table: the SQL rendered from the parsed relation returns the same bag of rows (the same sequence under a top-level ORDER BY), with the same width and the same names for aliased / plain-column items; a rendered text that the reference front end and SQLite (strict identifiers) reject while the original runs is reported as invalid.",
+        note="Trusted: the reference SQL semantics of lib/sqlfront.py (independent of the compiler; shares scalar kernels and aggregate arithmetic with SymRel) - a violation is printed only when SQLite reproduces the difference. Outside: string literals / special identifiers (text is not encoded), ties under ORDER BY, names of unaliased expressions, programs the compiler refuses or panics on (reported as notes).",
+        design="0.1 / 3 C08"),
     "C03": dict(
         level="model_checking", engine="M (MIR -> SMT over reals) + driver glue",
         technique="SMT (non-linear real arithmetic, ln uninterpreted and monotone, sqrt by its defining equation) over the MIR of dp_event::{gaussian_noise_multiplier, gaussian_noise} and DpAggregatesParameters::split: calibration, composition and monotonicity lemmas for all epsilon, delta, n, C; concrete glue over the relations and events returned by the real compiler (lineage of every noised column to its clip literal, budget sum, event entries)",
@@ -103,7 +109,6 @@ NOT_APPLICABLE = {
 }
 
 NOT_YET = {
-    "C08": "not built yet (stretch goal; two SQL front ends)",
 }
 
 
@@ -140,7 +145,7 @@ def main():
         engines=[
             dict(name="M", path="lib/mir.py", serves_properties=["C12", "C18", "C14", "C15", "C06", "C10", "C11", "C03", "C04"], kind_free_text="nightly MIR dump of /repo -> SMT-LIB for loop-free bodies; cvc5/z3 portfolio"),
             dict(name="T", path="lib/rules.py", serves_properties=["C02", "C13"], kind_free_text="rewriting-rule tree automaton: rule lists extracted from the real code, labelings decided by SMT"),
-            dict(name="S", path="lib/symrel.py", serves_properties=["C07", "C14", "C05", "C01", "C09", "C04"], kind_free_text="SymRel: bounded symbolic evaluation of the Relation IR emitted by the real compiler over a symbolic database; SQLite replay"),
+            dict(name="S", path="lib/symrel.py", serves_properties=["C07", "C14", "C05", "C01", "C09", "C04", "C08"], kind_free_text="SymRel: bounded symbolic evaluation of the Relation IR emitted by the real compiler over a symbolic database; SQLite replay"),
             dict(name="K", path="kani/", serves_properties=["C11", "C18"], kind_free_text="Kani proof harnesses over the real Intervals<B> (CBMC)"),
             dict(name="driver", path="driver/", serves_properties=["*"], kind_free_text="Rust binary linked against /repo's working tree: runs the real type/expr/relation/rewriting code concretely on JSON jobs (grids, replays, IR dumps)"),
         ],
